@@ -28,6 +28,10 @@ type Scenario struct {
 	// that was already reached with no more deviations spent.  Sound only when
 	// threads interact through hooked operations alone.
 	Prune bool
+	// DefaultOnly runs just the default schedule (used for the input
+	// dimension of application properties, where the schedule dimension is
+	// covered by other scenarios).
+	DefaultOnly bool
 	// Full adds a final pass with no deviation bound at all (use with Prune).
 	Full bool
 }
@@ -188,6 +192,20 @@ func Explore(sc *Scenario) (*Stats, *Failure) {
 	// Pass order: the cheapest bounds first (fewest-deviation counterexamples),
 	// then — with Full — the unbounded pass, whose state keys merge best; only
 	// if that pass is cut by the deadline do the larger bounds follow.
+	if sc.DefaultOnly {
+		e := &Explorer{sc: sc, st: st, bound: 0}
+		x := e.runOnce(nil, false)
+		st.Executions, st.Steps, st.Points, st.MaxThreads = 1, int64(x.Steps), int64(len(x.points)), x.Threads
+		st.TraceClasses[x.traceSum] = struct{}{}
+		st.Ends[x.End]++
+		st.BoundCompleted = 0
+		if f := sc.Check(x); f != nil {
+			y := e.runOnce(x.Choices, true)
+			f.Trace, f.Choices = y.Trace, x.Choices
+			return st, f
+		}
+		return st, nil
+	}
 	bounds := []int{}
 	for b := 0; b <= sc.Bound && (b <= 1 || !sc.Full); b++ {
 		bounds = append(bounds, b)
